@@ -155,6 +155,14 @@ type jv struct {
 
 func (jv) unused() {}
 
+// ju has untyped parts: what they hold comes back with the same dynamic types (numbers as float64, as
+// encoding/json gives them; so the originals use float64).
+type ju struct {
+	Any  interface{}            `json:"any"`
+	Map  map[string]interface{} `json:"map,omitempty"`
+	List []interface{}          `json:"list,omitempty"`
+}
+
 type named struct{ S string }
 
 func (named) Name() string { return "a-custom-name" }
@@ -167,7 +175,9 @@ func codecScenario() *explore.Scenario {
 		// JSON marshaler, all name generators
 		for _, gen := range []func(interface{}) string{nil, cqrs.StructName, cqrs.NamedStruct(cqrs.FullyQualifiedStructName)} {
 			m := cqrs.JSONMarshaler{GenerateName: gen}
-			for _, v := range []any{&jv{S: s}, &jv{S: s, N: -1 << 62, M: map[string]string{s: s}, L: []string{s, ""}}, &named{S: s}} {
+			for _, v := range []any{&jv{S: s}, &jv{S: s, N: -1 << 62, M: map[string]string{s: s}, L: []string{s, ""}}, &named{S: s},
+				&ju{Any: 1.5, Map: map[string]interface{}{s: float64(len(s)), "nested": map[string]interface{}{"n": 12345678901.0, "s": s}}, List: []interface{}{s, 0.0, true, nil}},
+				&ju{Any: s}} {
 				n++
 				msg, err := m.Marshal(v)
 				if err != nil {
